@@ -169,6 +169,7 @@ class World:
         self.tmp_now = None       # clock value seen by WorkerTmp.notify() during an "Nt" label
         self.script_labels = None  # number of executed labels that came from the script (the rest is the tail)
         self.stopping_at = None   # number of labels executed when stop() was first entered
+        self.final_stop_at = None # ... when the stop() called from halt() was entered
 
     # ---- kernel ------------------------------------------------------------------------------------
     def kid(self, pid):
@@ -476,6 +477,13 @@ class World:
                 gsock.os = SockOs(os)
                 if world.stopping_at is None:
                     world.stopping_at = world.nlabels
+                if world.final_stop_at is None:
+                    f = sys._getframe(1)
+                    while f is not None:
+                        if f.f_code.co_name == "halt":
+                            world.final_stop_at = world.nlabels      # the stop() called by halt(): exceptions raised in it leave run()
+                            break
+                        f = f.f_back
                 try:
                     world.closed_listeners.append(([l.name for l in listeners], bool(unlink)))
                     return gsock.close_sockets(listeners, unlink)
